@@ -104,6 +104,8 @@ class Ref:
                 return True
             elif k == "obs":
                 self.obs.append((self.clock, self.warmed, a[1], a[2:]))
+            elif k == "strategy":
+                self.strategy = a[1]        # the error strategy may be changed while the simulation runs
             elif k in ("gate", "noop", "cmd", "fire", "draw"):
                 pass
             else:
